@@ -75,6 +75,15 @@ def oracle(recs):
         if k == 'sample' and v[1:] != [1, 1, 1, 1, 1, 1]:
             bad.append(('the handle of the entity created as number %d no longer reaches its own entity through every path (typed find, dynamic find, raw round trip, direct find, try_from, contains) = %s'
                         % (v[0], v[1:]), (k, v)))
+        if k == 'full':
+            # values are (creation ordinal & 0xff); with `len` entities created in order the sum is determined
+            want = sum(range(256)) * (v[0] // 256) + sum(range(v[0] % 256))
+            names = ['ecs_iter!', None, 'get_all_slices_mut', 'ecs_iter_destroy!', 'ecs_iter_borrow!', 'Archetype::iter']
+            for j, nm in enumerate(names):
+                if nm and v[1 + j] != v[0]:
+                    bad.append(('with %d entities (the maximum) %s %s' % (v[0], nm, 'panicked' if v[1 + j] == -1 else 'presented %d items' % v[1 + j]), (k, v)))
+            if v[1] == v[0] and v[2] != want:
+                bad.append(('with %d entities (the maximum) ecs_iter! handed the closure wrong component values (sum %d instead of %d)' % (v[0], v[2], want), (k, v)))
         if k == 'wcap' and v[0] <= LIMIT and (v[1] != 0 or v[2] < v[0]):
             bad.append(('with_capacity(%d) panicked or gave capacity %d' % (v[0], v[2]), (k, v)))
         if k == 'wcap' and v[0] > LIMIT and v[1] != 1:
